@@ -1113,16 +1113,24 @@ func ruleP16Fold(p *Prog, r *Report) {
 				pb := b.Preds[i]
 				gs := append(guardsOf(pb), edgeGuard(pb, b)...)
 				h24, m0, sh := false, false, false
+				extra := ""
 				for _, g := range gs {
 					bo, ok := g.Cond.(*ssa.BinOp)
-					if !ok || !g.Pol {
+					if !ok {
+						extra = g.Cond.String()
+						continue
+					}
+					if !g.Pol {
 						continue
 					}
 					k2, isK2 := constInt(bo.Y)
 					if !isK2 {
+						extra = bo.String()
 						continue
 					}
 					switch strip(bo.X) {
+					default:
+						extra = bo.String()
 					case ssa.Value(hour):
 						h24 = bo.Op == token.EQL && k2 == 24
 					case ssa.Value(minute):
@@ -1131,6 +1139,7 @@ func ruleP16Fold(p *Prog, r *Report) {
 						sh = (bo.Op == token.LEQ && k2 == 0) || (bo.Op == token.LSS && k2 == 1)
 					}
 				}
+				r.check(extra == "", rule, "guard:only", p.pos(ph.Pos()), "nothing else decides about the fold", "the 24:00 fold additionally depends on "+extra+": 24:00 is no longer folded for every time it applies to (e.g. a sum that lands on midnight in 12-hour notation)")
 				r.check(h24 && m0 && sh, rule, "guard", p.pos(ph.Pos()), "24:00 is folded exactly when hour == 24, minute == 0 and the time is not shifted to tomorrow", "the 24:00 fold does not apply exactly to hour 24, minute 0, day shift <= 0 (e.g. <24:00 is no longer accepted)")
 				// the shift phi in the same block: shift + 1 on that edge
 				okShift := false
